@@ -2,7 +2,7 @@
    Statements only; proofs are in Dlt/WriteProofs.v (on top of Dlt/FrameProofs.v, Dlt/IterProofs.v).
 
    Model: Dlt/Write.v (DltMessage::to_write = storage header from the message + DltStandardHeader::to_write
-   with recomputed htyp/len, checked u16 arithmetic) and the parsers/iterator of Dlt/Frame.v, Dlt/Iter.v.
+   with recomputed htyp/len, Err when the len field would overflow) and the parsers/iterator of Dlt/Frame.v, Dlt/Iter.v.
    "Parsed message": the result of parse_storage on well-formed bytes whose storage header has
    micros < 10^6, or of parse_serial on well-formed bytes.  [same_fields m m']: ECU id, reception time,
    timestamp and timestamp presence, message counter, payload byte order, extended header, payload. *)
@@ -22,7 +22,8 @@ Proof.
   - exact (parse_serial_wf idx d n m Hd Hp).
 Qed.
 
-(* writing a parsed message succeeds (no u16 overflow: the rewritten header is never longer than the original) *)
+(* writing a parsed message succeeds -- neither a panic nor an io::Error: the rewritten header is never longer than the
+   original, so header + payload fit the 16 bit len field *)
 Theorem C02_write_ok (m : msg) : parsed m -> exists bytes, msg_to_write m = Ok (WOk bytes).
 Proof. intros H. eexists. apply write_is_enc. apply parsed_wf; exact H. Qed.
 
